@@ -36,7 +36,21 @@ RULE = ("random type-directed pipelines (pipes.gen_case) biased to overwriting e
 # candidate ids of harness/oracles.py -> known-finding ids of this property (see known_findings.json)
 CANDS = {"N19-pandas-join-key-also-right-column-leaks-scratch": "C08-pandas-join-key-also-right-column"}
 
-SUITES = [suite(PROPERTY, oracles.oracle_C08, CANDS, n_quick=110, n_thorough=600,
+def _rename_twice(case, failure):
+    """the guard of finding C08-rename-source-twice: a rename_columns names one source column more than once, and the
+    failure is about the columns of an SQL result"""
+    from .. import pipes
+    if "sqlite" not in failure["kind"] and "pg" not in failure["kind"]:
+        return None
+    for st in pipes.pipe_steps(case["pipe"]):
+        if st.get("call") == "rename_columns":
+            olds = [o for _, o in st.get("map") or []]
+            if len(olds) != len(set(olds)):
+                return "C08-rename-source-twice"
+    return None
+
+
+SUITES = [suite(PROPERTY, oracles.oracle_C08, CANDS, extra=_rename_twice, n_quick=110, n_thorough=600,
                 max_rows=10, overwrite=0.5, dead_project=0.5, select_after_drop=0.3, empty_tables=0.15, extend_after_extend=0.5,
                 step_weights={"select_columns": 2.0, "drop_columns": 1.5, "project": 1.5, "rename_columns": 1.5,
                               "map_columns": 1.5})]
